@@ -95,7 +95,7 @@ def gen_doc(rng):
 DUP_OPTS = [0, 0x04, 0x08, 0x0C, 0x10]      # NO_META, WITH_FLAGS, both, NO_EXT
 MERGE_OPTS = [0, 0x02, 0x04, 0x06]           # DEFAULTS, WITH_FLAGS
 LAWS = {1: "dup-equal", 2: "dup-prints-equal", 4: "dup-lyb", 8: "dup-searchable", 16: "merge-into-empty", 32: "merge-idempotent",
-        64: "merge-destruct-equals-copy", 128: "dup-validates", 256: "dup-independent"}
+        64: "merge-destruct-equals-copy", 128: "dup-validates", 256: "dup-independent", 512: "dup-into-populated-parent"}
 
 
 def run_duplaw(cx):
